@@ -3600,16 +3600,25 @@ impl<'s> Semantics<'s> {
                 rhs = Expr::sext(lhs.bits(), rhs)?;
             }
 
-            let rhs = Expr::add(rhs.clone(), Expr::zext(rhs.bits(), expr_scalar("CF", 1))?)?;
+            let subtrahend =
+                Expr::add(rhs.clone(), Expr::zext(rhs.bits(), expr_scalar("CF", 1))?)?;
 
             let result = self.temp(0, lhs.bits());
-            block.assign(result.clone(), Expr::sub(lhs.clone(), rhs.clone())?);
+            block.assign(result.clone(), Expr::sub(lhs.clone(), subtrahend)?);
 
-            // calculate flags
+            // calculate flags. rhs + CF may wrap around to 0, so overflow and
+            // borrow are determined from the operands themselves.
             self.set_zf(block, result.clone().into())?;
             self.set_sf(block, result.clone().into())?;
-            self.set_of(block, result.clone().into(), lhs.clone(), rhs, true)?;
-            self.set_cf(block, result.clone().into(), lhs)?;
+            self.set_of(block, result.clone().into(), lhs.clone(), rhs.clone(), true)?;
+            // there is a borrow when lhs < rhs, or lhs == rhs with a borrow in
+            block.assign(
+                scalar("CF", 1),
+                Expr::or(
+                    Expr::cmpltu(lhs.clone(), rhs.clone())?,
+                    Expr::and(expr_scalar("CF", 1), Expr::cmpeq(lhs, rhs)?)?,
+                )?,
+            );
 
             // store result
             self.operand_store(block, &detail.operands[0], result.into())?;
